@@ -77,6 +77,7 @@ def undocumented_suffix(draw):
 def strategy(ctx):
     return st.one_of(
         undocumented_suffix(),
+        gen_ir.wrap_boundary_interface(),
         gen_ir.interface("signature", suffix=True),
         gen_ir.interface("signature", suffix=True, min_params=2, max_params=5),
         gen_ir.interface("signature", suffix=True, doc=gen_ir.mixed_descr, name_strategy=gen_ir.rich_names),
@@ -165,6 +166,8 @@ def check_cell(r, case, cell):
         if wd != gd:
             if fmt == "argparse" and is_open("P13") and "default" not in p and (ac & {"P13-zero", "P13-bool", "P13-list"}):
                 r.covered("P13")
+            elif style == "rest" and edd and fmt != "argparse" and isinstance(p.get("default"), str) and " " in p["default"] and len(p.get("doc", "")) + len(repr(p["default"])) > 70 and is_open("P63"):
+                r.covered("P63")  # multi-word string default wrapped inside its quotes (embedded ReST docstring)
             elif style == "google" and fmt == "function" and not p.get("doc") and "default" in p and any("default" in q for _m, q in params[: [x for x, _ in params].index(n)]) and is_open("P61"):
                 r.covered("P61")  # forced zero-value default of an empty google entry overrides the signature's default
             else:
